@@ -5,11 +5,11 @@ import re
 import time
 
 from framework import ROOT
-from props import e1util
+from props import e1util, c04opts
 from props.e1util import unhex
 
-TIE = ["Nsq.Tie.Num", "Nsq.Tie.PQ", "Nsq.Tie.TickLoop"]
-PROPS = ["Nsq.Props.C04", "Nsq.Props.C04Live", "Nsq.Props.C04Micro"]
+TIE = ["Nsq.Tie.Num", "Nsq.Tie.PQ", "Nsq.Tie.TickLoop"] + c04opts.TIE
+PROPS = ["Nsq.Props.C04", "Nsq.Props.C04Live", "Nsq.Props.C04Micro"] + c04opts.PROPS
 MAXI64 = 2 ** 63 - 1
 
 
@@ -31,8 +31,9 @@ def run(ctx):
         "for that value DPUB's saturating conversion accepts any larger 64-bit millisecond count with delay "
         "2^63-1 ns (theorem dpub_saturation_corner) and the HTTP part needs max-req-timeout >= 0",
         "setMsgTimeout_range: max-msg-timeout >= 0",
-        "touch_cap: the initial in-flight timeout of a delivery is <= max-msg-timeout "
-        "(msg-timeout option / negotiated msg_timeout, see setMsgTimeout_range)",
+        "touch_cap: the initial in-flight timeout of a delivery is <= max-msg-timeout: guaranteed for a negotiated "
+        "msg_timeout (setMsgTimeout_range); for the daemon default only once nsqd.New compares the two options "
+        "(audit A12, fix F40: Props.C04Opts.deadline_cap_fixed / deadline_cap_unfixed_false)",
         "PARTIAL (lateness): with more than QueueScanSelectionCount (20) channels the per-tick selection "
         "is random, so 'soon after' is statistical; wall-clock lateness also depends on the Go timer and "
         "scheduler. Proved instead: a scan at or after the deadline releases the entry "
@@ -64,6 +65,10 @@ def run(ctx):
     gen_ok, _ = ctx.gen("e1_codec")
     gen_ok2, _ = ctx.gen("e2_tick")      # statement order of the whole queueScanLoop tick (Tie.TickLoop)
     gen_ok = gen_ok and gen_ok2
+    for spec in c04opts.SPECS:           # nsqd.New's msg-timeout check, writers/readers of clientV2.MsgTimeout (audit A12)
+        ctx.gen(spec)
+    ctx.assumptions += c04opts.ASSUMPTIONS
+    ctx.trusted += c04opts.TRUSTED
     ok, log = ctx.lean_build(TIE + PROPS)
     if not ok:
         ctx.lean_obligation_failed("lake build " + " ".join(TIE + PROPS), log[-1500:])
@@ -105,6 +110,7 @@ def run(ctx):
                     "would only run into its 120 s timeout")
         else:
             run_refresh_leg(ctx, corr_broken)
+        c04opts.run(ctx, corr_broken)    # audit A12: option pair (msg-timeout, max-msg-timeout) on a real daemon
         for b in extra_bins:
             run_all(ctx, b, corr_broken, scale=1)
             run_wall(ctx, b, corr_broken)
